@@ -347,6 +347,34 @@ def r3(ctx: Ctx) -> None:
                         bad_use.append(u)
                     if not rebound and not bad_use:
                         ok, how = True, f"bound to {tg.id}, used only for membership / size"
+                if not ok and isinstance(tg, ast.Attribute) and isinstance(tg.value, ast.Name) and tg.value.id == "self" and f.cls is not None:
+                    # a set kept on the object: every use of that attribute in the class is order-free
+                    bad_use = []
+                    nuse = 0
+                    for m_ in f.cls.methods.values():
+                        mparents: Dict[int, ast.AST] = {}
+                        for n_ in ast.walk(m_.node):
+                            for c_ in ast.iter_child_nodes(n_):
+                                mparents[id(c_)] = n_
+                        for u in ast.walk(m_.node):
+                            if not (isinstance(u, ast.Attribute) and u.attr == tg.attr and isinstance(u.value, ast.Name) and u.value.id == "self") or u is tg:
+                                continue
+                            nuse += 1
+                            up = mparents.get(id(u))
+                            if isinstance(u.ctx, ast.Store):
+                                if isinstance(up, (ast.Assign, ast.AnnAssign)) and up.value is not None and (isinstance(up.value, (ast.Set, ast.SetComp)) or (isinstance(up.value, ast.Call) and isinstance(up.value.func, ast.Name) and up.value.func.id in ("set", "frozenset"))):
+                                    continue
+                                bad_use.append(u)
+                                continue
+                            if isinstance(up, ast.Compare) and u in up.comparators and all(isinstance(o, (ast.In, ast.NotIn, ast.Eq, ast.NotEq)) for o in up.ops):
+                                continue
+                            if isinstance(up, ast.Attribute) and up.attr in ("add", "discard", "remove", "update", "clear", "__contains__", "issubset", "issuperset", "isdisjoint") and isinstance(mparents.get(id(up)), ast.Call):
+                                continue
+                            if isinstance(up, ast.Call) and isinstance(up.func, ast.Name) and up.func.id in _ORDER_FREE_CONSUMERS and u in up.args:
+                                continue
+                            bad_use.append(u)
+                    if not bad_use:
+                        ok, how = True, f"kept in self.{tg.attr}, used only for membership / size ({nuse} use(s) in {f.cls.name})"
                 if not ok and isinstance(par, ast.AnnAssign):
                     ann = ast.unparse(par.annotation)
                     if ann.replace("typing.", "") in ("Set[int]", "Set[float]", "set[int]", "set[float]", "FrozenSet[int]"):
